@@ -12,6 +12,7 @@ import Np.Model.Grad
 import Np.Model.CallArr
 import Np.Model.Align
 import Np.Model.Construct
+import Np.Model.RoutingTables
 /-! line-protocol driver: one JSON case per line on stdin, the model's answer per line on stdout -/
 open Lean Np Np.Shape
 
@@ -310,6 +311,16 @@ def runCase (j : Json) : E Json := do
     match fromAttributes rc rn names expos cols with
     | some p => pure (showArr ⟨shape, p⟩)
     | none => pure (showErr .construction)
+  | "resolve" =>
+    let kind ← (← j.getObjVal? "kind").getStr?
+    let name ← (← j.getObjVal? "name").getStr?
+    let out := if kind == "ufunc" then
+        Routing.arrayUfunc Routing.shipped name ((j.getObjVal? "method").toOption.bind (·.getStr?.toOption) |>.getD "__call__")
+      else Routing.arrayFunction Routing.shipped name
+    pure (match out with
+      | .forward impl => Json.mkObj [("status", "ok"), ("kind", "forward"), ("impl", impl)]
+      | .featureNotSupported => showErr .featureNotSupported
+      | .otherError e => Json.mkObj [("status", "err"), ("kind", e)])
   | _ => throw s!"bad-op {op}"
 
 def step (line : String) : String :=
